@@ -601,11 +601,16 @@ func (w *bwalker) calls(n ast.Node, in dset) dset {
 				o := core.CalleeObj(w.info, t)
 				if isPMethod(o) {
 					line := ""
-					for _, a := range t.Args {
-						if s, ok := w.e.constStr(w.bf.pkg, a); ok {
-							line += s
-						} else {
-							line += w.placeholder(a)
+					if t.Ellipsis.IsValid() && len(t.Args) == 1 {
+						// P(parts...): the parts are collected from the slice expression
+						line = w.sliceText(t.Args[0], 0)
+					} else {
+						for _, a := range t.Args {
+							if s, ok := w.e.constStr(w.bf.pkg, a); ok {
+								line += s
+							} else {
+								line += w.placeholder(a)
+							}
 						}
 					}
 					d := lexDelta(line)
@@ -724,6 +729,61 @@ func (e *braceEngine) textOf(pkg *packages.Package, x ast.Expr, depth int) (stri
 		}
 	}
 	return "", false
+}
+
+// sliceText gives the emitted text of a []interface{} argument list built from composite literals, append calls and
+// single-assignment locals; parts that are not constant strings stand for identifiers.
+func (w *bwalker) sliceText(x ast.Expr, depth int) string {
+	if depth > 4 {
+		return "X"
+	}
+	x = ast.Unparen(x)
+	part := func(a ast.Expr) string {
+		if s, ok := w.e.constStr(w.bf.pkg, a); ok {
+			return s
+		}
+		return w.placeholder(a)
+	}
+	switch t := x.(type) {
+	case *ast.CompositeLit:
+		out := ""
+		for _, e := range t.Elts {
+			out += part(e)
+		}
+		return out
+	case *ast.CallExpr:
+		if id, ok := t.Fun.(*ast.Ident); ok && id.Name == "append" && len(t.Args) >= 1 {
+			if _, isB := w.info.Uses[id].(*types.Builtin); isB {
+				out := w.sliceText(t.Args[0], depth+1)
+				if t.Ellipsis.IsValid() && len(t.Args) == 2 {
+					return out + w.sliceText(t.Args[1], depth+1)
+				}
+				for _, a := range t.Args[1:] {
+					out += part(a)
+				}
+				return out
+			}
+		}
+	case *ast.Ident:
+		o := w.info.ObjectOf(t)
+		var rhs ast.Expr
+		n := 0
+		ast.Inspect(w.bf.decl.Body, func(nd ast.Node) bool {
+			if as, ok := nd.(*ast.AssignStmt); ok {
+				for i, l := range as.Lhs {
+					if li, ok := l.(*ast.Ident); ok && w.info.ObjectOf(li) == o && i < len(as.Rhs) {
+						rhs = as.Rhs[i]
+						n++
+					}
+				}
+			}
+			return true
+		})
+		if n == 1 && rhs != nil {
+			return w.sliceText(rhs, depth+1)
+		}
+	}
+	return "X"
 }
 
 func (w *bwalker) localConst(o types.Object) (string, bool) {
